@@ -1559,6 +1559,7 @@ func (fr *Frame) execSelect(st *State, i *ssa.Select) {
 	fr.afterCall(st, "select", vals[0])
 	// ghost: the value a receive case would deliver is visible as ret("recvcase.value<k>") (k = index of the case in
 	// source order); it is what the code sees when ret("select") == k
+	fr.afterCall(st, "recvcase.ok", vals[1])
 	{
 		j := 2
 		for k, sc := range i.States {
